@@ -39,7 +39,10 @@ REV_TWO = dict(nd=3, groups=[{'C': [0, 2, 1]}, {'A': [0, 1, 2], 'B': [0, 2, 1]}]
 # refuse it; if it is accepted, the property applies to it like to any accepted grouping
 UNCONN3 = dict(nd=3, groups=[{'v_parallel_2d': [0, 2, 1], 'mode_solve': [1, 2, 0]}, {'poloidal': [2, 1, 0]}],
                procs=lambda p0, p1: [[p0, p1], p0], start='mode_solve')
-FAMILIES = dict(driver3=DRIVER3, driver4=DRIVER4, two=TWO_GROUPS, upstream4=UPSTREAM4, rev3=REV3, rev_two=REV_TWO, unconn3=UNCONN3)
+# a route of three steps across handlers (A-C-B inside the 2-D handler, then the gather to D)
+THREE_STEP = dict(nd=3, groups=[{'A': [0, 1, 2], 'C': [0, 2, 1], 'B': [1, 2, 0]}, {'D': [1, 0, 2]}],
+                  procs=lambda p0, p1: [[p0, p1], p0], start='A')
+FAMILIES = dict(three3=THREE_STEP, driver3=DRIVER3, driver4=DRIVER4, two=TWO_GROUPS, upstream4=UPSTREAM4, rev3=REV3, rev_two=REV_TWO, unconn3=UNCONN3)
 
 
 def tag(cfg):
@@ -240,6 +243,9 @@ def configs(tier):
         add('rev3', (2, 2), 'S', 'G', False, 3)
         add('rev3', (2, 2), 'G', 'S', True, 3)
         add('rev_two', (2, 2), 'B', 'C', False, 3)
+        add('three3', (2, 2), 'A', 'D', True, 3)
+        add('three3', (2, 2), 'D', 'A', True, 3)
+        add('three3', (2, 2), 'A', 'D', False, 3)
         add('unconn3', (2, 3), 'mode_solve', 'poloidal', False, 3)
         add('unconn3', (2, 3), 'poloidal', 'v_parallel_2d', True, 3)
     else:
@@ -259,6 +265,10 @@ def configs(tier):
                 for buf in (False, True):
                     add('two', grid, a, b, buf, 3)
                     add('rev_two', grid, a, b, buf, 3)
+        for grid in [(2, 2), (2, 3)]:
+            for a, b in itertools.permutations(['A', 'B', 'C', 'D'], 2):
+                for buf in (False, True):
+                    add('three3', grid, a, b, buf, 3)
         for grid in [(2, 3), (3, 2)]:
             for a, b in itertools.permutations(['mode_solve', 'poloidal', 'v_parallel_2d'], 2):
                 add('unconn3', grid, a, b, grid == (2, 3), 3)
